@@ -382,6 +382,14 @@ def generate_c11(seed, tier):
         scn['ops'] = [['u', a, b] for a, b in batches]
         if kind == 'mia':
             scn['mia'] = {'lo': -2 + scn['offset'], 'hi': 2 + scn['offset'], 'bins': 4}
+    nr = rng.stream(seed, 'narrowint')
+    if scn['regime'] == 'exact' and kind != 'mia' and nr.random() < 0.25:
+        # C11 input class: integer traces much narrower than the requested precision, with values large enough that a kernel working in
+        # a narrower float than requested (or in the trace dtype) is no longer exact: int16 near full range / uint8 at 255, float64 precision
+        scn['precision'] = 'float64'
+        scn['tdtype'] = nr.choice(['int16', 'int16', 'uint8'])
+        scn['amp'] = {'int16': 4094, 'uint8': 255}[scn['tdtype']]
+        scn['offset'] = nr.choice([0, 0, 4096, 20000]) if scn['tdtype'] == 'int16' else 0
     ups = [o for o in scn['ops'] if o[0] == 'u'][:8]
     scn['ops'] = ups
     # environments = kernel schedules x worker-count sequences
